@@ -18,23 +18,22 @@ CHECKS = {
             "&mut operation of PriorityQueue; lemma_root_is_max turns it into 'peek/pop address a maximum'; pop/pop_if/peek_mut address heap[0], the element peek reports. "
             "Verus discharges the postconditions and loop invariants of heapify, bubble_up, up_heapify, heap_build, push, pop, pop_if, change_priority(_by), remove, retain(_mut), append, extend, From/FromIterator for all sizes, shapes and priority assignments.",
             "4 C01", ""),
-    "C02": ("for DoublePriorityQueue: positions returned by find_min/find_max, peek_min/peek_max results and lemmas root-is-min / max-at-1-or-2 over the min-max invariant (minmax_ordered); "
-            "which element pop_min/pop_max/pop_*_if/peek_*_mut address. See level_note for the part of the order-preservation proofs that is not finished.",
-            "4 C02", "ORDER PRESERVATION by the min-max sift functions (heapify_min/max, bubble_up*, up_heapify, heap_build) is proved only where DESIGN.md section 4 C02 says so at the time of this commit; "),
+    "C02": ("for DoublePriorityQueue: the min-max invariant minmax_ordered (every node ordered against its children and grandchildren) is established by every constructor / bulk operation and preserved by every &mut operation; Verus discharges the loop invariants of heapify_min / heapify_max (trickle-down with the bridge to the grandparent), bubble_up / bubble_up_min / bubble_up_max (climb), up_heapify, heap_build and the posts of push, pop_min, pop_max, pop_*_if, change_priority(_by), push_increase/decrease, remove, retain(_mut), append, extend, conversions, IterMut::drop, deserialize for all sizes and shapes; lemma_root_is_min and lemma_max_at_1_or_2 turn the invariant into 'peek_min/pop_min address a minimum, peek_max/pop_max a maximum'; find_max's three cases are branches of its contract.",
+            "4 C02", "the two trickle-down loop bodies are the most expensive queries (about 100M of 360M rlimit units each); "),
     "C03": ("every public method of both queues has a postcondition over the map view (Seq<(I,P)> in slot order) and the size: exact return values, exact new contents, absent item => nothing changes; Store::remove / swap_remove / change_priority carry whole-view frames.",
             "4 C03", ""),
     "C04": ("every function under contract is verified free of panics, overflow and out-of-bounds accesses from the representation invariant wf alone (order is never needed for safety), and every &mut function re-establishes wf; "
             "the ~40 unsafe get_unchecked(_mut) sites are verified as written against the slice-bounds precondition.",
             "4 C04", "documented capacity-overflow panics (reserve, with_capacity) are explicit preconditions; "),
-    "C05": ("termination measures of the sift loops are discharged (decreases clauses); comparison counts are not expressible as contracts on the real signatures -- see not_applicable note in DESIGN.md 4 C05 for the claimed part.",
-            "4 C05", "iteration bounds only; "),
-    "C06": ("into_sorted_vec loop invariant (ghost sequence of popped pairs: sorted, all stored, length), IntoSortedIter::next posts inherited from pop / pop_min / pop_max, exact len.",
+    "C05": ("(1) Verus: ghost step counters in the six sift loops with the invariant steps <= floor(log2 n) (two levels per step in the min-max heap) and decreases clauses; (2) a generated static derivation (tools/cost.py), one obligation per function with a declared class: comparison sites (binary comparisons on priorities, cmp, k-1 for a selection among k candidates, std's sorting / searching algorithms) per function plus callees, loops multiplying by log (only where a discharged step-counter clause exists) or n, Floyd's construction declared linear: derived class <= declared class (zero for peeks and lookups, 1 for peek_max, log for single-element operations, n for bulk operations).",
+            "4 C05", "part (2) is a generated obligation over the syntax tree, not a Verus proof of comparison counts (those are not expressible on the real signatures); the sum of sift heights in heap_build being O(n) is assumed; site recognition is syntactic; "),
+    "C06": ("loop invariants of into_sorted_vec, into_ascending_sorted_vec and into_descending_sorted_vec over a ghost sequence of popped pairs: one entry per stored element, every entry a stored pair, every stored pair an entry (coverage), sorted, the last popped bounds what remains; IntoSortedIter::next / next_back posts inherited from pop / pop_min / pop_max, exact len / size_hint.",
             "4 C06", ""),
     "C07": ("posts and loop invariants of Store::from(Vec), from_iter, extend, append and the queue-level wrappers: wf, identity tables, other queue emptied, stored item kept under both extend strategies, heap order re-established; "
             "size_hint is an unconstrained stub, so every obligation holds for every hint; capacity arguments derived from hints must satisfy the no-panic precondition of reserve/with_capacity.",
             "4 C07", "legal lower bound + current length <= 2^60-1 is an explicit assume (listed); "),
-    "C08": ("posts of retain/retain_mut (wf, order), IterMut::next (slot handed out = cursor slot, prophecy of what is written), IterMut::drop (order), swap_remove_if / pop_if family (returned pair = slot as the predicate left it; kept otherwise; order restored).",
-            "4 C08", "retain_mut calls the predicate itself (once per entry handed out by the iter_mut2 stub); retain2 then only consumes recorded answers (rewrite R19, stub contract); Store::retain adapter assumed; "),
+    "C08": ("retain_mut: the predicate is called once on every stored entry in slot order and exactly the entries it accepted stay, as it left them (post.answers over f.ensures, through the IterMut2 prophecy and R19 with the recorded answers), order re-established; IterMut::next (slot handed out = cursor slot, prophecy of what is written), IterMut::drop (order); swap_remove_if and the pop_if family: returned pair = slot as the predicate left it, removed iff the predicate returned true (pop_if_decided), kept with the written priority otherwise, order restored; change_priority_by stores what the setter left.",
+            "4 C08", "Store::retain (the Fn(&I,&P) adapter) has an assumed contract; FnMut / FnOnce closures are relations between arguments and result in Verus (a closure's own state is not tracked); IterMut2 / retain2-with-recorded-answers stub contracts (audited); "),
     "C09": ("cursor contracts of IterMut::next / next_back / len / size_hint: the slot handed out is the cursor slot and the cursor strictly advances, so slots are pairwise distinct; exact remaining length.",
             "4 C09", "raw-pointer reborrow (R6 __launder) trusted as value identity; "),
     "C10": ("wf is a precondition wherever a priority is fetched for comparison or user code is called and an invariant of every sift loop; every function is safe from wf alone. Verus discharges these, including wf at every call of a user closure (crash-point assertions) and the leak-safety posts of IterMut::new / iter_mut / drain; a generated audit obligation per function forbids handing a user-supplied callable or iterator to an IndexMap method (user code then only runs at call sites the verifier sees). The step to 'safe after a caught panic' is a stated meta-argument.",
@@ -43,17 +42,17 @@ CHECKS = {
             "4 C11", ""),
     "C12": ("the C03 posts name the *stored* key in every 'present' case; get_mut / peek_*_mut / IterMut posts address the slot's key with a prophecy of the written value; swap / swap_remove / remove / heapify have map frames.",
             "4 C12", "Borrow<Q> agreement is std's law (eqv through &Q); "),
-    "C13": ("Iter / IntoIter / Drain delegate next / next_back / len to the stub iterators (ghost view = remaining entries); every type declaring ExactSizeIterator must have size_hint == (remaining, Some(remaining)), the core default body being synthesized (R9) where not overridden.",
+    "C13": ("Iter / IntoIter / Drain delegate next / next_back / len to the stub iterators (ghost view = remaining entries); every type declaring ExactSizeIterator must have size_hint == (remaining, Some(remaining)), the core default body being synthesized (R9) where not overridden; optional contracts (what std's default does) for overrides of nth / nth_back / count / last that the source may introduce; the source queue of append is emptied.",
             "4 C13", "std adaptors over these iterators are trusted; "),
-    "C14": ("eq of Store / PriorityQueue / DoublePriorityQueue returns exactly IndexMap's order-insensitive map equality (map_eq); Clone is #[derive]d: no source text to put a contract on (structural, see DESIGN).",
-            "4 C14", "derive(Clone) semantics assumed; "),
+    "C14": ("eq of Store / PriorityQueue / DoublePriorityQueue returns exactly IndexMap's order-insensitive map equality (map_eq); Clone is #[derive]d, so there is no function body to put a contract on: generated structural obligations (the three structs derive Clone, no manual impl Clone, no field type shares state) stand in, and a hand-written Clone makes the check undecided with the bounded history search (clone / clone_from against the source) deciding.",
+            "4 C14", "derive(Clone) semantics assumed; reflexivity / symmetry / transitivity are IndexMap's; "),
     "C15": ("visit_seq against an arbitrary SeqAccess: Ok(store) => wf and identity tables, no panic; serialize emits the map entries in slot order with the size as length hint (ghost trace); queue-level deserialize re-establishes order.",
             "4 C15", "serde driver (deserialize_seq -> visit_seq) assumed; "),
     "C16": ("posts of Store::drain / clear and the queue wrappers: tables and size cleared before the map's drain is handed out, whose stub contract leaves the map empty however the iterator is consumed; result is the abstract state of a fresh queue.",
             "4 C16", "indexmap drain leak behaviour assumed; "),
     "C17": ("frame posts of with_capacity*, reserve, reserve_exact, try_reserve, try_reserve_exact, shrink_to_fit (map view, both tables, size unchanged) plus the capacity relation; try_reserve has no panic obligation left; TryReserveError conversions.",
             "4 C17", ""),
-    "C18": ("corollary: every obligation is discharged with H an uninterpreted type parameter that is only forwarded to IndexMap::with_capacity_and_hasher; obligation set = constructor posts.",
+    "C18": ("every obligation is discharged with H an uninterpreted type parameter that is only forwarded to IndexMap::with_capacity_and_hasher; one generated audit obligation per function: no call into the hasher (BuildHasher / Hasher methods, .hasher(), hash_one) -- all hashing is IndexMap's; constructor posts; the append model does not depend on capacities.",
             "4 C18", "stub contracts do not mention the hasher; "),
 }
 
